@@ -8,7 +8,7 @@ use crate::opt::{run_script, steps_inner, ForcedPolicy, OptCfg, RunOut, WorsePol
 use crate::probe::{Decision, Expect};
 
 pub const TITLE: &str = "Moves are accepted according to the Metropolis rule";
-pub const RULE: &str = "part deterministic: cyclic scripts of forced outcomes on synthetic states (2..8 parameters, 1..20 loops, kT = 0 or 1e-3..10, with and without a finishing temperature or cooling ratio): better by 1e-300..1e100 => accepted, equal => accepted, undefined => rejected, worse at kT=0 => rejected; the outcome of every step is read off the next proposal (which state it derives from); steps whose outcome cannot be read (two consecutive proposals on one coordinate, or a move clamped to no change) are excluded. part frequencies: constant temperature by construction (a single inner loop, so that no cooling schedule is involved), 8 parameters on [0,1] starting at 0.5 with max_step 1e-3 (never clamped), every proposal scripted worse by d; 12 fixed (d,kT) pairs with exp(-d/kT) in [0.02,0.98] including kT=1e-6 and kT=100, and generated pairs with d/kT log-uniform in [0.02,4] at kT log-uniform in [1e-6,100]; N counted trials per case (quick 2e5, thorough 2e6: a 6-sigma test then resolves an absolute bias of about 0.7% / 0.2%); accepted iff |p_hat - exp(-d/kT)| <= 6 sqrt(p(1-p)/N) + 1/N. Non-trivial = a frequency trial with 0.02<p<0.98, or a deterministic script in which all four kinds of step were resolved; distinct by hash of the case.";
+pub const RULE: &str = "part deterministic: cyclic scripts of forced outcomes on synthetic states (2..8 parameters, 1..20 loops, kT = 0 or 1e-3..10, with and without a finishing temperature or cooling ratio): better by 1e-300..1e100 => accepted, equal => accepted, undefined => rejected, worse at kT=0 => rejected; the outcome of every step is read off the next proposal (which state it derives from); steps whose outcome cannot be read (two consecutive proposals on one coordinate, or a move clamped to no change) are excluded. part frequencies: constant temperature by construction (a single inner loop, so that no cooling schedule is involved), 8 parameters on [0,1] starting at 0.5 with max_step 1e-3 (never clamped), every proposal scripted worse by d; 12 fixed (d,kT) pairs with exp(-d/kT) in [0.02,0.98] including kT=1e-6 and kT=100, and generated pairs with d/kT log-uniform in [0.02,4] at kT log-uniform in [1e-6,100]; N counted trials per case (quick 2e5, thorough 2e6: a 6-sigma test then resolves an absolute bias of about 0.7% / 0.2%); accepted iff |p_hat - exp(-d/kT)| <= 6 sqrt(p(1-p)/N) + 1/N. part boundary: the optimiser's seeded generator (Pcg64Mcg; one index draw, one displacement draw, one acceptance draw per step) is replayed by the harness, so the acceptance draw u_k of every step is known in advance; proposal k is scripted worse by d with exp(-d/kT) = u_k(1+eps) on even steps (must be accepted) and u_k(1-eps) on odd steps (must be rejected), eps in 1e-8..1e-3, kT in 1e-6..100; an eighth of the cases first search consecutive seeds for a draw below 1e-6 or 1.5e-9, so that the rule is also decided where exp(-d/kT) is about 1e-9. The replay is trusted only while it predicts which parameter every proposal moves (otherwise the case is skipped and counted). Non-trivial = a frequency trial with 0.02<p<0.98, a boundary case with >= 10 judged steps, or a deterministic script in which all four kinds of step were resolved; distinct by hash of the case.";
 
 pub fn assumptions() -> Vec<&'static str> {
     vec![
@@ -246,6 +246,183 @@ fn freq_oracle(c: &FreqCase, rec: &Rec, ctx: &Ctx) -> Result<(), String> {
     Ok(())
 }
 
+// ------------------------------------------------------------------------------------------------
+// boundary part: the optimiser's seeded generator is replayed, so the acceptance draw u_k of every step is known;
+// proposal k is scripted worse by d with exp(-d/kT) = u_k (1 +- eps): it must be accepted for "+" and rejected for "-".
+// This decides the rule at every probability scale (down to the smallest draws found by searching seeds).
+
+#[derive(Clone, Debug, Serialize, Deserialize)]
+pub struct BoundaryCase {
+    pub n: usize,
+    pub kt: f64,
+    pub seed: u64,
+    pub steps: u64,
+    pub eps_exp: f64,
+    /// search the seeds seed, seed+1, ... for a draw below this value within the first `steps` steps (0 = no search)
+    pub rare_below: f64,
+}
+
+fn boundary_strat(_: &Ctx) -> BoxedStrategy<BoundaryCase> {
+    (2usize..=8, (-6.0..2.0f64).prop_map(|e| 10f64.powf(e)), any::<u64>(), 50u64..600, -8.0..-3.0f64, prop_oneof![6 => Just(0.), 1 => Just(1.0e-6)])
+        .prop_map(|(n, kt, seed, steps, eps_exp, rare_below)| BoundaryCase { n, kt, seed: seed >> 1, steps, eps_exp, rare_below })
+        .boxed()
+}
+
+/// a few cases that search seeds for an acceptance draw below 1.5e-9 (exp(-20) = 2.06e-9)
+fn rare_strat(_: &Ctx) -> BoxedStrategy<BoundaryCase> {
+    (2usize..=8, (-3.0..1.0f64).prop_map(|e| 10f64.powf(e)), any::<u64>(), -8.0..-3.0f64)
+        .prop_map(|(n, kt, seed, eps_exp)| BoundaryCase { n, kt, seed: seed >> 1, steps: 3000, eps_exp, rare_below: 1.5e-9 })
+        .boxed()
+}
+
+/// the draws the optimiser makes with this seed: per step (parameter index, acceptance draw)
+fn replay_draws(seed: u64, n: usize, steps: u64) -> Vec<(usize, f64)> {
+    use rand07::distributions::{Distribution, Uniform};
+    use rand07::{Rng, SeedableRng};
+    let mut rng = rand_pcg::Pcg64Mcg::seed_from_u64(seed);
+    let dist = Uniform::new(0, n);
+    let mut v = Vec::with_capacity(steps as usize);
+    for _ in 0..steps {
+        let i: usize = dist.sample(&mut rng);
+        let _g: f64 = rng.gen_range(-0.5, 0.5);
+        let u: f64 = rng.gen();
+        v.push((i, u));
+    }
+    v
+}
+
+struct BoundaryPolicy {
+    draws: Vec<(usize, f64)>,
+    kt: f64,
+    eps: f64,
+    cur: f64,
+    /// per step: (d, expected accept, margin ok)
+    plan: Vec<(f64, bool, bool)>,
+}
+
+impl crate::probe::Policy for BoundaryPolicy {
+    fn decide(&mut self, _params: &[f64], info: &crate::probe::CallInfo) -> Option<f64> {
+        let k = info.call;
+        if k == 0 {
+            return Some(self.cur);
+        }
+        if k > self.draws.len() || info.finished {
+            return Some(self.cur);
+        }
+        let u = self.draws[k - 1].1;
+        let plus = k % 2 == 0;
+        let p = (u * if plus { 1. + self.eps } else { 1. - self.eps }).min(1.0).max(1e-300);
+        let d = -self.kt * p.ln();
+        let new = self.cur - d;
+        // what the rule says for exactly these numbers
+        let diff = new - self.cur;
+        let prob = (diff / self.kt).exp().min(1.);
+        let accept = new > self.cur || u < prob;
+        let margin_ok = u > 0. && ((prob / u) - 1.).abs() >= 0.25 * self.eps && d > 0.;
+        self.plan.push((d, accept, margin_ok));
+        if accept {
+            self.cur = new;
+        }
+        Some(new)
+    }
+}
+
+fn boundary_oracle(c: &BoundaryCase, rec: &Rec, _: &Ctx) -> Result<(), String> {
+    let mut seed = c.seed;
+    let mut rare_hit: Option<usize> = None;
+    if c.rare_below > 0. {
+        // deterministic search over consecutive seeds
+        let budget: u64 = if c.rare_below < 1e-7 { 400_000 } else { 20_000 };
+        let scan_steps = if c.rare_below < 1e-7 { c.steps } else { c.steps.min(120) };
+        for s in 0..budget {
+            let draws = replay_draws(c.seed.wrapping_add(s), c.n, scan_steps);
+            if let Some(pos) = draws.iter().position(|(_, u)| *u < c.rare_below && *u > 0.) {
+                seed = c.seed.wrapping_add(s);
+                rare_hit = Some(pos + 1);
+                break;
+            }
+        }
+        if rare_hit.is_none() {
+            rec.class("boundary/rare-draw-not-found");
+            return Ok(());
+        }
+    }
+    let steps = match rare_hit {
+        Some(k) => (k as u64 + 3).min(c.steps),
+        None => c.steps,
+    };
+    let draws = replay_draws(seed, c.n, steps);
+    let cfg = OptCfg { steps, inner: steps, kt_start: c.kt, kt_finish: None, kt_ratio: Some(0.), max_step: 1e-3, convergence: None, seed };
+    let policy = BoundaryPolicy { draws: draws.clone(), kt: c.kt, eps: 10f64.powf(c.eps_exp), cur: 0., plan: vec![] };
+    // the plan is filled by the policy; keep a handle through a shared cell
+    let plan_cell: std::sync::Arc<std::sync::Mutex<Vec<(f64, bool, bool)>>> = std::sync::Arc::new(std::sync::Mutex::new(vec![]));
+    struct Wrapper(BoundaryPolicy, std::sync::Arc<std::sync::Mutex<Vec<(f64, bool, bool)>>>);
+    impl crate::probe::Policy for Wrapper {
+        fn decide(&mut self, p: &[f64], info: &crate::probe::CallInfo) -> Option<f64> {
+            let r = self.0.decide(p, info);
+            *self.1.lock().unwrap() = self.0.plan.clone();
+            r
+        }
+    }
+    let out = run_script(&cfg, &vec![0.5; c.n], &vec![(0., 1.); c.n], false, true, Box::new(Wrapper(policy, plan_cell.clone())));
+    rec.eval(out.steps.len() as u64 + 1);
+    if let Some(p) = &out.panicked {
+        return Err(format!("optimiser panicked: {}", p));
+    }
+    let plan = plan_cell.lock().unwrap().clone();
+    // the replay is only trusted while it predicts which parameter each proposal moves
+    let mut judged = 0u64;
+    let mut smallest = f64::INFINITY;
+    for (ix, st) in out.steps.iter().enumerate() {
+        if ix >= plan.len() || ix >= draws.len() {
+            break;
+        }
+        if let Some(changed) = st.changed {
+            if changed != draws[ix].0 {
+                rec.class("boundary/generator-not-replayable-skipped");
+                return Ok(());
+            }
+        }
+        let (d, accept, margin_ok) = plan[ix];
+        if !margin_ok {
+            continue;
+        }
+        if let Some(o) = st.outcome {
+            judged += 1;
+            if draws[ix].1 < smallest {
+                smallest = draws[ix].1;
+            }
+            if o != accept {
+                return Err(format!(
+                    "step {} (seed {}): the proposal is worse by d = {:e} at kT = {:e}, exp(-d/kT) = {:e}, and the step's acceptance draw is {:e}: it must be {} but was {}",
+                    ix + 1,
+                    seed,
+                    d,
+                    c.kt,
+                    (-d / c.kt).exp(),
+                    draws[ix].1,
+                    if accept { "accepted" } else { "rejected" },
+                    if o { "accepted" } else { "rejected" }
+                ));
+            }
+        } else if st.n_bases == 0 {
+            break;
+        }
+    }
+    let judged_rare = rare_hit.map(|k| out.steps.get(k - 1).map(|s| s.outcome.is_some()).unwrap_or(false)).unwrap_or(false);
+    let class = if c.rare_below > 0. { format!("boundary/rare-draw<{:e}{}", c.rare_below, if judged_rare { "/judged" } else { "/unresolved" }) } else { "boundary/ordinary".to_string() };
+    rec.class(&class);
+    rec.class_n("boundary/judged-steps", judged);
+    rec.counter_max("minus-log10-smallest-judged-draw", -smallest.log10());
+    if judged >= 10 {
+        rec.nontrivial(hash_json(&serde_json::to_value(c).unwrap()));
+    }
+    if rec.wants_sample(&class) {
+        rec.sample(&class, || serde_json::json!({"case": c, "seed_used": seed, "judged_steps": judged, "smallest_draw_judged": smallest}));
+    }
+    Ok(())
+}
+
 pub fn parts() -> Vec<PartDef> {
-    vec![part("deterministic", 60_000, 1_200_000, det_strat, det_oracle), part("frequencies", 240, 1_200, freq_strat, freq_oracle)]
+    vec![part("deterministic", 60_000, 1_200_000, det_strat, det_oracle), part("frequencies", 240, 1_200, freq_strat, freq_oracle), part("boundary", 4_000, 80_000, boundary_strat, boundary_oracle), part("boundary-rare", 16, 320, rare_strat, boundary_oracle)]
 }
